@@ -168,8 +168,15 @@ def post_part(ctx: Ctx, items: list[dict[str, Any]], seeds: list[int]) -> None:
         def canon(t: Any) -> Any:
             # the cover is a Python set of frozensets: the order of the rebuilt children is arbitrary, and AND/OR/XOR
             # are commutative — compare up to the order of children
+            # … and an OR gate directly below an OR gate is spliced into it on both sides: where the OR inference
+            # builds `+(n…, O(r…))` it leaves the grandchildren's parent pointers on the old node, so a grandchild that
+            # becomes an OR gate later is not seen by filter_defunct_or_gates and stays nested in the real tree, while
+            # the model (which has no pointers) flattens it.  Same sets either way (`flatten_sem`).
             if isinstance(t, list):
-                return [t[0]] + sorted((canon(c) for c in t[1:]), key=json.dumps)
+                kids = [canon(c) for c in t[1:]]
+                if t[0] == "O":
+                    kids = [g for c in kids for g in (c[1:] if isinstance(c, list) and c[0] == "O" else [c])]
+                return [t[0]] + sorted(kids, key=json.dumps)
             return t
         # every outcome of the model — every choice max() could have made, whatever the hash seed — must satisfy the
         # property too: soundness always, exactness on the sub-class
@@ -301,6 +308,12 @@ REPAIRED_INPUTS = [
 ]
 
 
+# observed families on which the real tree keeps an OR gate nested below an OR gate (a stale parent pointer hides it from
+# the defunct-OR filter) while the model flattens it: found by the thorough tier, they run in every tier so that the
+# canonicalisation of the tie is exercised
+NESTED_OR_INPUTS = [[["a", "b", "d"], ["a", "b", "d", "e"], ["a", "d"], ["b", "d"], ["b", "d", "e"], ["b", "d", "e", "f"], ["b", "d", "f"], ["c", "d"], ["c", "d", "e", "f"], ["d", "e"], ["d", "e", "f"], ["d", "f"]], [["a", "b", "d"], ["a", "b", "d", "e"], ["a", "d"], ["a", "d", "e"], ["b", "c", "d", "f"], ["b", "d"], ["d", "e"], ["d", "e", "f"]], [["a", "b", "c", "d"], ["a", "b", "d"], ["a", "b", "d", "f"], ["a", "c", "d"], ["a", "c", "d", "e"], ["a", "d"], ["a", "d", "f"], ["b", "d", "f"], ["c", "d", "e"], ["d", "e"], ["d", "f"]]]
+
+
 def observed_part(ctx: Ctx, quick: bool, domain_items: list[dict[str, Any]], seeds: list[int]) -> None:
     """the first sentence of the property on families that are NOT the full outcome family of a tree: seeded random
     families of observed sets and seeded parts of the domain's families (what a finite log shows of a gate tree).  The
@@ -308,14 +321,14 @@ def observed_part(ctx: Ctx, quick: bool, domain_items: list[dict[str, Any]], see
     repository's post-processing of the real raw tree must be an outcome of the Lean model, and every outcome of the
     model (every choice of max) must admit every observed set too."""
     r = ctx.rng
-    fams: list[list[list[str]]] = [list(f) for f in REPAIRED_INPUTS]
+    fams: list[list[list[str]]] = [list(f) for f in REPAIRED_INPUTS] + [list(f) for f in NESTED_OR_INPUTS]
     for _ in range(700 if quick else 9000):
         n = r.choice([3, 4, 5, 5, 6])
         uni = list("abcdef"[:n])
         k = r.choice([2, 3, 3, 4, 5, 7])
         sets = {tuple(sorted(r.sample(uni, r.randrange(1, n + 1)))) for _ in range(k)}
         fams.append([list(x) for x in sorted(sets)])
-    ctx.tick("observed_random_families", len(fams) - len(REPAIRED_INPUTS))
+    ctx.tick("observed_random_families", len(fams) - len(REPAIRED_INPUTS) - len(NESTED_OR_INPUTS))
     pool = [it for it in domain_items if len(it["family"]) >= 3]
     for _ in range(500 if quick else 6000):
         it = r.choice(pool)
